@@ -403,6 +403,39 @@ def run(ctx):
     ctx.floor('C08.D1', 4)
     ctx.floor('C08.D2', 4)
     ctx.floor('C08.D3', 5)
+    # the correlation key is the serial: two outstanding calls must never
+    # share one - the serial clauses of C03-D5 (one process-wide counter,
+    # started positive, only ever incremented, a fresh value per message)
+    # are premises of "a completion is never delivered to a different call"
+    from . import c03 as _c03
+
+    class _Serials:
+        prog = ctx.prog
+        tier = ctx.tier
+        extra = {}
+
+        def ob(self, rule, where, slot, ok, msg, detail=None,
+               nontrivial=True, loc=None):
+            if rule == 'C03.D5':
+                ctx.ob('C08.D4', where, 'serial:' + slot, ok,
+                       '[serials are the correlation keys of pending calls] '
+                       + msg, detail, nontrivial, loc)
+            return ok
+
+        def floor(self, *a):
+            pass
+
+        def advisory(self, *a):
+            pass
+    sub = _Serials()
+    _c03.serial_rules(sub)
+    mfi = ctx.prog.func('message.DBusMessage._marshal')
+    for c in _c03.message_classes(ctx.prog):
+        if c.name != 'MethodCallMessage':
+            continue
+        paths = Interp(ctx.prog, exc_edges=False, self_cls=c).run(mfi)
+        _c03.marshal_rules(sub, c, mfi, paths, ('param', 'self'),
+                           skip_typing=True)
     ctx.floor('C08.D4', 4)
     ctx.floor('C08.D5', 4)
 
